@@ -1249,7 +1249,7 @@ func init() {
 				c.SetMax("slowest_shard_ms_"+name, time.Since(t0).Milliseconds())
 				t0 = time.Now()
 			}
-			concExplore(c, "C06", c06ConcScenarios(up), 1, 2)
+			concExplore(c, "C06", c06ConcScenarios(up), 1, 2, concEvery["C06"]...)
 			lap("concurrent")
 			c06Layer1(c, l1, product)
 			lap("layer1")
@@ -1309,7 +1309,7 @@ func c06Replay(c *Ctx, raw json.RawMessage) string {
 		world.NewIdP()
 		up := world.NewUpstream("u")
 		defer up.Close()
-		return concReplayOne(c, "C06", c06ConcScenarios(up), cr0)
+		return concReplayOne(c, "C06", c06ConcScenarios(up), cr0, concEvery["C06"]...)
 	}
 	var cs c06Case
 	if err := json.Unmarshal(raw, &cs); err != nil {
